@@ -154,6 +154,45 @@ def exStream : Bytes :=
 example : (serveTCP (fun _ _ => false) exCfg exEnv exStream).action =
     .dial [0x31, 0x32, 0x37, 0x2e, 0x30, 0x2e, 0x30, 0x2e, 0x31, 0x3a, 0x38, 0x30] := by decide
 
+/-! ### the equality-level reading and bcrypt's 72-byte key (open finding C21-bcrypt-equivalent-password)
+
+  `C21_holds` reads "credentials matching a configured user" as: the configured hash VERIFIES the
+  presented password.  Read as "the presented password IS the one the hash was made from", the
+  statement fails for bcrypt itself: it only looks at the first 72 bytes of `password ++ [0]`
+  repeated, so for a user whose password has 72 bytes any longer password with that prefix is
+  accepted, and `pw ++ [0] ++ pw` is accepted for `pw`. -/
+
+/-- Equality-level statement for hashed users, with the concrete bcrypt model. -/
+def C21_strict_statement : Prop :=
+  ∀ (name pw : Bytes) (env : Env) (inp : Bytes),
+    (serveTCP bcModel ⟨true, [⟨name, [], hashOf pw⟩]⟩ env inp).action ≠ .none →
+    ∃ n p, (serveTCP bcModel ⟨true, [⟨name, [], hashOf pw⟩]⟩ env inp).creds = some (n, p) ∧ p = pw
+
+def pw72 : Bytes := List.replicate 72 0x70
+
+/-- Witness: user "a" with a 72-byte password; the client presents that password plus one more
+    byte and is served. -/
+theorem C21_strict_refuted : ¬ C21_strict_statement := by
+  intro h
+  have := h [0x61] pw72 exEnv
+    ([5, 1, 2] ++ ([1, 1, 0x61, 73] ++ pw72 ++ [0x78]) ++ [5, 1, 0, 1, 127, 0, 0, 1, 0, 80]) (by decide)
+  obtain ⟨n, p, hc, hp⟩ := this
+  revert hc hp
+  generalize hcr : (serveTCP bcModel ⟨true, [⟨[0x61], [], hashOf pw72⟩]⟩ exEnv
+    ([5, 1, 2] ++ ([1, 1, 0x61, 73] ++ pw72 ++ [0x78]) ++ [5, 1, 0, 1, 127, 0, 0, 1, 0, 80])).creds = cr
+  have : cr = some ([0x61], pw72 ++ [0x78]) := by rw [← hcr]; decide
+  intro hc hp
+  rw [this] at hc
+  injection hc with hc
+  injection hc with _ h2
+  rw [← h2] at hp
+  exact absurd hp (by decide)
+
+/-- The NUL form: "ab" is configured, "ab\0ab" is accepted. -/
+example : bcModel (hashOf [0x61, 0x62]) [0x61, 0x62, 0, 0x61, 0x62] = true := by decide
+/-- One byte short of the limit there is no such slack: a 71-byte password plus a byte is refused. -/
+example : bcModel (hashOf (List.replicate 71 0x70)) (List.replicate 71 0x70 ++ [0x78]) = false := by decide
+
 /-- Wrong password, or the no-auth method: refused. -/
 example : (serveTCP (fun _ _ => false) exCfg exEnv
     ([5, 1, 2] ++ [1, 1, 0x61, 2, 0x70, 0x78] ++ [5, 1, 0, 1, 127, 0, 0, 1, 0, 80])).action = .none := by decide
